@@ -76,6 +76,8 @@ def gen_const(rng: random.Random, name: str):
         return ["c", t, name, rng.choice(["true", "false"]), rng.random() < 0.5] if False else ["c", t, name, "true", True]
     if k < 0.2:
         s = rng.choice(["a", "", "ab", "é", "\x00", "\x7f", "ÿ", "Z", " ", "\x80", "0", "K", "`", ";"] + [rng.choice(rng.choice([cl for cl in ASCII_LOOKALIKE_CLASSES if cl]))] * 6)
+        if rng.random() < 0.5 and t[0] != "bool":
+            t = ["u", 8, rng.choice("st")]  # the only type that can accept a character at all
         raw = rng.random() < 0.4  # the character itself in the (UTF-8) file instead of an escape sequence
         lit = "'" + "".join(c if ((32 <= ord(c) < 127 or (raw and ord(c) >= 0xa0 and c.isprintable())) and c not in "'\\") else ("\\u%04x" % ord(c) if ord(c) < 0x10000 else "\\U%08x" % ord(c)) for c in s) + "'"
         return ["c", t, name, lit, {"str": s}]
